@@ -79,6 +79,27 @@ def scene_case(spec):
         out["prop_failures"].append(dict(test="reciprocity", at=[int(x) for x in idx], ab=float(ab[idx]), ba=float(ba[idx]),
                                          rel_to_peak=float(diff.max() / peak), case=tag,
                                          what="curve at B for a source at A differs from the curve at A for a source at B"))
+    # an order sweep on one initialised object (source set once, exchange recalculated for several orders):
+    # at the last order the two directions must still be reciprocal
+    sweep = []
+    for (s_, r_) in [(A, B), (B, A)]:
+        radi.init_source_energy(pf.Coordinates(*s_))
+        for k_ in sorted({1, max(1, K - 1), K}):
+            radi.calculate_energy_exchange(c, dt, dur, k_, recalculate=True)
+        sweep.append(radi.collect_energy_receiver_mono(pf.Coordinates(*r_)).time[0].copy())
+    d2 = np.abs(sweep[0] - sweep[1])
+    pk2 = max(float(np.abs(sweep[0]).max()), 1e-300)
+    if np.any(d2 > 1e-9 * pk2):
+        idx = np.unravel_index(int(np.argmax(d2)), d2.shape)
+        out["prop_failures"].append(dict(test="reciprocity_after_order_sweep", at=[int(x) for x in idx], case=tag,
+                                         rel_to_peak=float(d2.max() / pk2),
+                                         what="after recalculating the exchange for the orders 1..%d on one initialised object the "
+                                              "curve at B for a source at A differs from the curve at A for a source at B "
+                                              "(%.3g of the peak)" % (K, float(d2.max() / pk2))))
+    elif np.any(np.abs(sweep[0] - ab) > 1e-9 * peak):
+        out["prop_failures"].append(dict(test="reciprocity_after_order_sweep", case=tag,
+                                         what="the curve after an order sweep on the same object differs from the curve of the "
+                                              "direct run at the same order"))
     if K >= 2 and len(set(np.round(cfg["alpha"][:, 0], 6))) > 1:
         out["nontrivial"].append(case_hash(tag))
     return out
